@@ -121,6 +121,25 @@ fn compare(rep: &Report, built: &drive::Built, text: &str, map: &[(String, Val, 
         Err(p) => RunOutcome::SatisfyPanic(p),
     };
     let pruned = drive::run_pruned(built, drive::witness_map(map), &env);
+    // history independence: the first satisfy_with_env call on this instance is repeated after 5 and after 23 other
+    // calls (other maps, other environments) and must give the same bytes
+    {
+        let n = built.pruned_calls.fetch_add(1, std::sync::atomic::Ordering::Relaxed);
+        if n == 0 {
+            let (o, fp) = drive::run_pruned_on_bytes(&built.compiled, built.cmr, drive::witness_map(map), &env);
+            *built.first_pruned.lock().unwrap() = Some((drive::witness_map(map), e, o.class(), fp));
+        } else if n == 5 || n == 23 {
+            let first = built.first_pruned.lock().unwrap().clone();
+            if let Some((w0, e0, class0, fp0)) = first {
+                let env0 = drive::env_with(e0.0, e0.1);
+                let (again, fp1) = drive::run_pruned_on_bytes(&built.compiled, built.cmr, w0, &env0);
+                rep.eval(1);
+                if again.class() != class0 || fp1 != fp0 {
+                    rep.violation("C18:repeated-call-differs", format!("{label}: the first satisfy_with_env call on this instance gave {class0} / {fp0:016x}; repeated after {n} other calls (other maps and environments) it gives {} / {fp1:016x}", again.class()), json!({"kind": "run_pruned", "program": text, "args": [], "witness": map_json(map), "debug": false, "env": env_json(e), "expect": class0, "observed": again.class()}));
+                }
+            }
+        }
+    }
     rep.class(&format!("unpruned={} pruned={}", unpruned.class(), pruned.class()));
     let replay = |expect: &str, observed: &str| json!({"kind": "run_pruned", "program": text, "args": [], "witness": map_json(map), "debug": false, "env": env_json(e), "expect": expect, "observed": observed});
     let constrained = if anchored { "anchored" } else { "unanchored" };
